@@ -701,6 +701,11 @@ func c06(c *core.Ctx) {
 		c.Floor("hash-form/compared-fields", cmp, 20)
 	})
 
+	// C06.6: one signature, one encoding — the canonical-form clause (C04.5) and the identity clauses of C04 are necessary for authorisation as
+	// well: a re-encoded copy of a signed transaction (or of its gas payer's signature) is a transaction nobody signed for, executed with the
+	// signers' authority. Evaluated here under their C04 keys.
+	c04(c)
+
 	c.NotDecidedf("cryptographic soundness of ECDSA recovery and of keccak/RLP; that one signature has one encoding (the canonical low-s form is decided under C04.5 for every Ecrecover consumer; D6, repaired)")
 	c.NotDecidedf("what the executors (EVM, asset, vote, candidate code) do with the authority of the sender once the transaction is authorised; contracts moving funds of accounts that called them")
 	c.NotDecidedf("JSON/RLP re-encodings of a transaction, the temp-address derivation arithmetic of verifyTempAddress, correctness of Signers.ToSignerMap")
